@@ -134,6 +134,27 @@ class ModelU:
             z3.ForAll([x], z3.Implies(z3.Not(self.fnan(x)), self.fle(self.zero, self.fabs_(x))), patterns=[self.fabs_(x)]),
         ]
 
+    def extra_axiom(self, name):
+        """optional IEEE facts a contract may ask for by name (each one is listed among the contract's assumptions)"""
+        S = self.sort
+        a, a2, b = z3.Const("U!a", S), z3.Const("U!a2", S), z3.Const("U!b", S)
+        if name == "sub_finite":
+            # assumption, not an IEEE law: the difference of two finite values does not overflow
+            return z3.ForAll([a, b], z3.Implies(z3.And(self.finite(a), self.finite(b)), self.finite(self.fsub(a, b))), patterns=[self.fsub(a, b)])
+        if name == "sub_nonfinite":
+            # IEEE: finite - (+-inf) = -+inf and x - NaN = NaN whatever the finite minuend (NaN payloads identified)
+            return z3.ForAll([a, a2, b], z3.Implies(z3.And(self.finite(a), self.finite(a2), z3.Not(self.finite(b))), self.fsub(a, b) == self.fsub(a2, b)),
+                             patterns=[z3.MultiPattern(self.fsub(a, b), self.fsub(a2, b))])
+        if name == "mul_zero_nonfinite":
+            # IEEE: 0 * (+-inf) = NaN = 0 * NaN: one value whatever the non-finite factor
+            return z3.ForAll([a, b], z3.Implies(z3.And(z3.Not(self.finite(a)), z3.Not(self.finite(b))), self.fmul(self.zero, a) == self.fmul(self.zero, b)),
+                             patterns=[z3.MultiPattern(self.fmul(self.zero, a), self.fmul(self.zero, b))])
+        if name == "i2f_finite":
+            # integer values (int16 data, counters) convert to finite floats
+            n = z3.Int("U!n")
+            return z3.ForAll([n], self.finite(self.i2f(n)), patterns=[self.i2f(n)])
+        raise KeyError(name)
+
     def is_float(self, t):
         return z3.is_expr(t) and t.sort() == self.sort
 
